@@ -1,6 +1,8 @@
 package engine
 
 import (
+	"bytes"
+
 	"github.com/cockroachdb/pebble"
 	"github.com/youzan/ZanRedisDB/common"
 )
@@ -58,7 +60,14 @@ func (it *pebbleIterator) Seek(key []byte) {
 	it.Iterator.SeekGE(key)
 }
 
+// SeekForPrev positions the iterator at the last key that is less than or equal to key,
+// as rocksdb's SeekForPrev and the mem engine do. pebble only offers the strict SeekLT,
+// so an exact match is looked for first. If nothing is >= key (or the match is outside the
+// iterator bounds) SeekGE leaves the iterator invalid and SeekLT finds the last key < key.
 func (it *pebbleIterator) SeekForPrev(key []byte) {
+	if it.Iterator.SeekGE(key) && bytes.Equal(it.Iterator.Key(), key) {
+		return
+	}
 	it.Iterator.SeekLT(key)
 }
 
